@@ -264,7 +264,20 @@ fn prop(c: &Case) -> Verdict {
             };
         }
         if q.dot_git_only {
-            // an option without counterpart in git: bare repositories are skipped on purpose
+            // an option without counterpart in git: bare repositories are skipped on purpose. The file system
+            // limit still applies.
+            if let (Ok(p), false) = (&found, q.cross_fs) {
+                use std::os::unix::fs::MetadataExt;
+                let (gd, wt) = p.clone().into_repository_and_work_tree_directories();
+                let at = wt.unwrap_or(gd);
+                let at = if at.is_absolute() { at } else { q.cwd.join(at) };
+                let start = if q.start.is_absolute() { q.start.to_path_buf() } else { q.cwd.join(q.start) };
+                if let (Ok(a), Ok(b)) = (std::fs::metadata(&at), std::fs::metadata(&start)) {
+                    if a.dev() != b.dev() {
+                        return Verdict::fail("crossed-filesystem", format!("gix {}", show_found(&found)));
+                    }
+                }
+            }
             return Verdict::ok(false, "dot-git-only-option");
         }
         let ceilings: Vec<PathBuf> = q.ceilings.iter().map(|c| lexical_abs(c, q.cwd)).collect();
